@@ -14,9 +14,12 @@ def model_ctx(exec_arn, data):
             "StateMachine": {"Id": machgen.ARN + "m1", "Name": "m1"}}
 
 
-def model_line(machine, data, exec_arn, oracle, fuel=400):
-    return "interp\trun\t%s\t%s\t%s\t%s\t%d" % (pj(machgen.for_model(machine)), pj(data),
+def model_line(machine, data, exec_arn, oracle, fuel=400, max_data=None):
+    """the `interp run` line; `max_data` (small-limit mode) is the size limit of the engine run, passed to the
+    model as `Env.maxData` in an optional seventh field"""
+    line = "interp\trun\t%s\t%s\t%s\t%s\t%d" % (pj(machgen.for_model(machine)), pj(data),
                                                  pj(model_ctx(exec_arn, data)), pj(oracle), fuel)
+    return line if max_data is None else line + "\t%d" % max_data
 
 
 def impl_view(r):
@@ -44,18 +47,113 @@ def classify(f, case, impl, model):
     return False
 
 
-def gen_case(rng, depth):
+SMALL_SHARE = 0.25      # share of the generated cases run in small-limit mode
+
+
+def pick_limit(rng, data, sizes):
+    """the size limit of a small-limit case.  Generated machines move around 50-200 characters of data (the
+    input is 55-130 characters, a worker echoes its payload).  `sizes` are the lengths the engine measured in an
+    unlimited run of the same case (outputs at transitions, reply texts); half of the time the limit is drawn just
+    below one of them (so that this check, or an earlier one, is refused), otherwise a little above the input's
+    own size or log-uniform in 60..600 (which often is not reached at all)"""
+    r = rng.random()
+    if sizes and r < 0.5:
+        s = rng.choice(sizes)
+        return max(1, s - rng.randint(1, max(1, s // 5)))
+    if r < 0.75:
+        return len(json.dumps(data)) + rng.randint(0, 120)
+    return int(round(60 * 10 ** rng.random()))
+
+
+def gen_case(rng, depth, small=False):
     g = machgen.Gen(rng, max_depth=depth)
     m = g.machine()
-    return {"machine": m, "input": machgen.gen_input(rng), "plans": g.fns}
+    case = {"machine": m, "input": machgen.gen_input(rng), "plans": g.fns}
+    if small and isinstance(case["input"], dict) and rng.random() < 0.4:
+        # padded input: 450-900 characters, the limit 345.. above it but below twice its size.  A state that copies
+        # its input into its result (a worker echoes its payload) is refused, while the Error Output — whose Cause
+        # text is about 300 characters long — placed into the raw input still fits: the catcher's transition goes
+        # through and what it carries is compared
+        case["input"]["pad"] = "x" * rng.randint(400, 800)
+        n = len(json.dumps(case["input"]))
+        case["max_data"] = n + rng.randint(345, n - 20)
+    elif small:
+        case["max_data"] = pick_limit(rng, case["input"], run_one(case).sizes)
+    return case
 
 
 def run_one(case):
-    r = enginerun.run_case(case["machine"], case["input"], case["plans"])
+    r = enginerun.run_case(case["machine"], case["input"], case["plans"], max_data=case.get("max_data"))
     try:
         return r
     finally:
         r.sim.close()
+
+
+def find_state(machine, name):
+    """the definition of the state called `name` (names are unique over all nesting levels)"""
+    for k, st in machine.get("States", {}).items():
+        if k == name:
+            return st
+        for sub in list(st.get("Branches", [])) + [st[x] for x in ("Iterator", "ItemProcessor") if x in st]:
+            f = find_state(sub, name)
+            if f is not None:
+                return f
+    return None
+
+
+def refusal_lines(machine, refusals):
+    """for every transition the engine refused: the Lean policy's decision (`retry decide`) on that error at that
+    retry count with the state's own Retry / Catch — only used to report how the refusals were handled"""
+    out = []
+    for x in refusals:
+        st = find_state(machine, x["state"]) or {}
+        sj = pj(machgen.for_model({k: st[k] for k in ("Retry", "Catch") if k in st}))
+        out.append("retry\tdecide\t%s\t%s\t%d" % (sj, pj(x["error"]), x["retries"] or 0))
+    return out
+
+
+def render_lines(r, cap=8):
+    """`render` is meant to be `json.dumps`: for (up to `cap` of) the data the engine's size checks measured in this
+    run — outputs at transitions, reply texts — ask the model for `(render j).length`"""
+    seen, out = set(), []
+    for text, n in r.measured:
+        if text not in seen and len(out) < cap:
+            seen.add(text)
+            out.append(("interp\trenderlen\t" + text, n))
+    return out
+
+
+def check_render(chk, asked, answers):
+    """compare; a difference is a defect of the model's `render` (or of the harness' JSON reader)"""
+    for (line, n), a in zip(asked, answers):
+        chk.dist("smalllimit.render_length.compared")
+        parts = a.split("\t")
+        if parts[0] != "ok" or int(parts[1]) != n:
+            chk.report("model-differs-from-impl", {"kind": "render-length", "json": line.split("\t", 2)[2]},
+                       impl={"len(json.dumps(x))": n}, model={"(render x).length": a},
+                       law="the model measures data exactly as the code does: (render x).length = len(json.dumps(x))")
+
+
+def replies_over(r, limit):
+    """worker replies whose text is longer than the limit (`task_dispatcher` turns them into States.DataLimitExceeded)"""
+    return sum(1 for ents in r.plans.table.values() for (_p, reps) in ents.values() for d in reps
+               if len(json.dumps(d)) > limit)
+
+
+def small_limit_dist(chk, case, r, decisions):
+    """distribution of the small-limit cases: did the run hit the limit, where, and how was it handled"""
+    lim = case["max_data"]
+    chk.dist("smalllimit.cases")
+    over = replies_over(r, lim)
+    if r.refusals or over:
+        chk.dist("smalllimit.hit")
+    if over:
+        chk.dist("smalllimit.reply_over_limit", over)
+    if len(json.dumps(case["input"])) > lim:
+        chk.dist("smalllimit.input_over_limit")
+    for x, d in zip(r.refusals, decisions):
+        chk.dist("smalllimit.refused.%s.%s.%s" % (x["type"], x["error"].split(".")[-1], d.split("\t")[0]))
 
 
 def run(chk):
@@ -68,15 +166,23 @@ def run(chk):
     for c in corpus:
         cases.append(c)
     for i in range(n):
-        cases.append(gen_case(chk.rng, chk.rng.choice([0, 1, depth])))
+        cases.append(gen_case(chk.rng, chk.rng.choice([0, 1, depth]), small=chk.rng.random() < SMALL_SHARE))
+    extra, spans, asked = [], [], []
     for c in cases:
         r = run_one(c)
         results.append(r)
-        lines.append(model_line(c["machine"], c["input"], r.exec_arn, r.plans.oracle()))
-    answers = common.driver(lines, shards=8)
-    for c, r, a in zip(cases, results, answers):
+        lines.append(model_line(c["machine"], c["input"], r.exec_arn, r.plans.oracle(), max_data=c.get("max_data")))
+        rl = refusal_lines(c["machine"], r.refusals)
+        spans.append((len(extra), len(extra) + len(rl)))
+        extra.extend(rl)
+        if c.get("max_data") is not None:
+            asked.extend(render_lines(r))
+    answers = common.driver(lines + extra + [x[0] for x in asked], shards=8)
+    decided = answers[len(lines):len(lines) + len(extra)]
+    check_render(chk, asked, answers[len(lines) + len(extra):])
+    for c, r, a, (d0, d1) in zip(cases, results, answers, spans):
         f = machgen.features(c["machine"])
-        key = cj([c["machine"], c["input"], c["plans"]])
+        key = cj([c["machine"], c["input"], c["plans"], c.get("max_data")])
         parts = a.split("\t")
         if parts[0] != "ok":
             chk.dist("model." + parts[0])
@@ -100,6 +206,9 @@ def run(chk):
         if f["catch"]:
             chk.dist("with_catch")
         case = {"machine": c["machine"], "input": c["input"], "plans": c["plans"]}
+        if c.get("max_data") is not None:
+            case["max_data"] = c["max_data"]     # a replay re-applies the limit
+            small_limit_dist(chk, c, r, decided[d0:d1])
         if r.errors:
             chk.report("impl-violates-law", case, impl={"errors": r.errors[:2]}, model=model_view(m),
                        law="no exception escapes a handler into the IO loop", classify=classify)
@@ -107,6 +216,11 @@ def run(chk):
         iv, mv = impl_view(r), model_view(m)
         if len(chk.cov["samples"]) < 4 and nontrivial and f["depth"] > 0:
             chk.sample({"machine": c["machine"], "input": c["input"], "plans": c["plans"], "impl": iv, "model": mv})
+        if r.cause_text_decides:
+            # a size check fell between the data's length with the engine's Cause text and with the masked one:
+            # the Cause text is outside every property (and masked here), so the model cannot tell the verdict
+            chk.dist("smalllimit.cause_text_decides.not_compared")
+            continue
         if m.get("multiFail"):
             # several branches of one fan-out fail: which one fails first (and hence whether the failure is retried /
             # caught) depends on timing, which the reference semantics does not model — C06 covers these families
@@ -129,7 +243,12 @@ def run(chk):
                        "members, Choice rules) x generated inputs x task plans (per function a sequence of error/success "
                        "replies), run on the real engine over the fake broker under the canonical FIFO schedule; compared with "
                        "Asl.run on status / output / error name; non-trivial = >= 2 states or a fan-out or a FAILED outcome; "
-                       "distinct = distinct (machine, input, plans) text" % depth)
+                       "distinct = distinct (machine, input, plans, limit) text; small-limit mode: a quarter of the generated "
+                       "cases run with the engine's MAX_DATA_LENGTH (state_engine and task_dispatcher) and the model's "
+                       "Env.maxData both set to a limit drawn around the data sizes of the case (input size + 0..120, or "
+                       "60..600 characters), so that refused transitions and over-long replies occur; smalllimit.* in the "
+                       "distribution says how many hit the limit, in which state type, and how the state's Retry/Catch "
+                       "handled it" % depth)
 
 
 def replay(chk, path):
@@ -137,7 +256,8 @@ def replay(chk, path):
         rp = json.load(f)
     c = rp["case"]
     r = run_one(c)
-    a = common.driver([model_line(c["machine"], c["input"], r.exec_arn, r.plans.oracle())])[0]
+    a = common.driver([model_line(c["machine"], c["input"], r.exec_arn, r.plans.oracle(), max_data=c.get("max_data"))])[0]
+    print("limit:", c.get("max_data"), "refused:", r.refusals)
     print("impl :", cj(impl_view(r)), "cause:", r.cause, "quiescent:", r.quiescent, "errors:", r.errors[:1])
     print("model:", a)
     for h in (r.history or []):
